@@ -14,7 +14,8 @@ EXPLANATION = (
     "the lock is handed over / released and the external-thread arm re-tests READY under the lock before each futex "
     "wait; R4 lock/trylock/spinlock/unlock agree on the owner/nesting protocol; R5 trylock reports success iff the "
     "mutex word was acquired; R6 the eight public entry points route to the three internal functions with their own "
-    "mutex; R7 every wait-list operation on a mutex's list holds waiter_lock.  Fairness/progress is not decided.")
+    "mutex; R7 every wait-list operation on a mutex's list holds waiter_lock.  Fairness/progress is not decided."
+    ' R4 also demands that the nesting counter is at least as wide as int.  R10 (= C05.R1): a condition wait re-acquires the mutex through ABTI_mutex_lock, so the recursive bookkeeping survives a wait.')
 DECLINED = ["'eventually acquires' (fairness / progress)",
             "memory images of ABT_MUTEX_INITIALIZER beyond the attribute constants"]
 ASSUMPTIONS = ["X2: the spinlock primitives are a correct test-and-set lock", "C02.R3/C05.R5 for the blocking arms"]
